@@ -708,3 +708,49 @@ def order_dependence(ctx, inputs, impl, rp, prop, cls):
         ctx.violation({"property": prop, "class": cls, "state": "left-behind-by-an-earlier-execution"},
                       "the outcome of an execution depends on what was executed before it in the same process", r)
     return n
+
+
+# ---- area "nscmd": the same cases submitted to the real command.Commander (C12: terminates, no panic; C08: commits what the machine computed)
+
+NSCMD_CLASS = {"compile_error": "compilation_failed", "invalid_vars": "compilation_failed", "missing_metadata": "compilation_failed",
+               "resolve_error": "compilation_failed", "insufficient_funds": "insufficient_funds"}
+
+
+def run_nscmd(ctx, n, prop):
+    """every generated case through Commander.CreateTransaction over the in-memory store, next to the machine run directly.
+    Violations (reported under `prop`): the request panicked or did not terminate; it committed other postings than the machine
+    computed; it answered another class of outcome than the machine's.  Returns the number of cases."""
+    r = pipeline(ctx, "nscmd", n, model=False, timeout=3000)
+    if r is None:
+        return 0
+    inputs, impl, _ = r
+    st = collections.Counter()
+    for inp in inputs:
+        o = impl.get(inp["id"]) or {}
+        vm, cmd = o.get("vm") or {}, o.get("cmd") or {}
+        oc = cmd.get("outcome")
+        st["outcome:%s" % oc] += 1
+        rp = {"area": "nscmd", "input": inp, "observed": o}
+        if oc in ("panic", "hang", "setup-failed") or oc is None:
+            ctx.violation({"property": prop, "class": "panic" if oc == "panic" else "hang" if oc == "hang" else "no-outcome", "through": "commander"},
+                          "a script submitted to the commander %s: %s" % ("panicked" if oc == "panic" else "did not terminate" if oc == "hang" else "gave no outcome",
+                                                                         str(cmd.get("panic") or cmd.get("after") or cmd.get("detail"))[:200]), rp)
+            continue
+        if "panic" in vm:
+            continue   # judged by the machine-level stream
+        if "postings" in vm:
+            want = ("ok", vm["postings"]) if vm["postings"] else ("error", "no_postings")
+            got = (oc, cmd.get("postings")) if oc == "ok" else (oc, cmd.get("class"))
+        else:
+            e = vm.get("err")
+            want = ("error", NSCMD_CLASS.get(e, "other" if e == "negative_amount" else "machine:%s" % e))
+            got = (oc, "other" if str(cmd.get("class", "")).startswith("other:") else cmd.get("class"))
+        if canon(list(want)) != canon(list(got)):
+            st["differs"] += 1
+            ctx.violation({"property": prop, "class": "commander-differs-from-machine", "machine": want[0] if want[0] == "ok" else want[1],
+                           "commander": got[0] if got[0] == "ok" else str(got[1])[:40]},
+                          "the machine run directly gives %s, the same request through the commander gives %s" % (str(want)[:160], str(got)[:160]), rp)
+    ctx.cov["through_the_commander"] = dict(st, cases=len(inputs),
+                                            rule="the cases of the numscript generator submitted to Commander.CreateTransaction over the in-memory store "
+                                                 "holding their balances and account metadata; a watchdog of 4 s per request")
+    return len(inputs)
